@@ -1,10 +1,11 @@
 ------------------------------- MODULE PolicyMC -------------------------------
 (* Design-level model checking of Policy.tla and schedule export.             *)
 (* Every sequence of public operations up to MaxLen from every pre-existing   *)
-(* file class is explored; on the classes the node can have written itself    *)
-(* (CanonicalClasses) the three clauses of C25 are invariants; on the other   *)
-(* classes the clause each step breaks is PREDICTED (pv) and exported with    *)
-(* the schedule, to be confirmed or refuted on the real code.                 *)
+(* file class is explored; on SoundClasses (files the node can have written   *)
+(* itself, with or without a final newline) the three clauses of C25 are      *)
+(* invariants; on the other classes the clause each step breaks is PREDICTED  *)
+(* (pv) and exported with the schedule; the engine reports a prediction the   *)
+(* real code does not show as drift of this model.                            *)
 (* One schedule is exported per distinct (state, incoming operation, verdict):*)
 (* the first (shortest, BFS) operation sequence reaching it.                  *)
 EXTENDS Policy, Json, SequencesExt
@@ -49,10 +50,10 @@ LastV  == IF pv = <<>> THEN {} ELSE pv[Len(pv)]
 View   == <<file, nl, mem, dirty, cls, LastOp, LastV>>
 
 (* ---- the property on the design, for files the node writes itself ---- *)
-Holds(clause) == cls \in CanonicalClasses => \A v \in LastV : v[1] # clause
+Holds(clause) == cls \in SoundClasses => \A v \in LastV : v[1] # clause
 P_C25_Effect  == Holds("effect")
 P_C25_Reject  == Holds("reject")
-P_C25_Persist == Holds("persist") /\ (cls \in CanonicalClasses => ~dirty)
+P_C25_Persist == Holds("persist") /\ (cls \in SoundClasses => ~dirty)
 \* structural: memory is always what a load of the file gives, or the file is flagged
 MemIsFile == LET d == Parse(file) IN dirty \/ (d.ok /\ d.pol = mem)
 
